@@ -1181,12 +1181,11 @@ class Sum(Expression):
 
         # Special case when ranges cover
         if isinstance(expression, Probability) and not expression.parents:  # i.e., no conditions
-            children = {
-                child.get_base(): child
-                for child in expression.children
-                # FIXME what happens if same name appears with multiple different counterfactual variables?
-                #  this should actually evaluate to zero since that's impossible
-            }
+            children = {child.get_base(): child for child in expression.children}
+            if len(children) != len(expression.children):
+                # the same variable appears in several worlds (e.g., P(Y, Y @ -X)): the children
+                # can't be told apart by their base variable, so nothing is marginalized here
+                return self
             if ranges == set(children):
                 return One()
             elif ranges > set(children):
